@@ -959,7 +959,7 @@ func ruleC15Size(cx *Ctx) {
 
 func ruleC15Range(cx *Ctx) {
 	const rule = "C15.range"
-	cx.R.Rule(rule, 1, "Range copies each bucket chain under its root lock and calls the user function only after releasing it; the cache's node iterator yields only alive, unexpired nodes")
+	cx.R.Rule(rule, 1, "Range copies each bucket chain under its root lock and calls the user function only after releasing it")
 	fn := cx.need(rule, hmPkg, "Map", "Range")
 	if fn == nil {
 		return
@@ -974,41 +974,7 @@ func ruleC15Range(cx *Ctx) {
 		n++
 		cx.R.Check(hf.anyHeld(a.in), rule, name, fmt.Sprintf("slot read#%d under lock", n), cx.P.where(a.in), "bucket slots are snapshotted under the root-bucket lock")
 	}
-	// cache.nodes: yield guarded by IsAlive && !HasExpired
-	nodes := cx.P.Func("", "cache", "nodes")
-	if nodes == nil {
-		cx.R.Undecided(rule, "(*cache).nodes", "anchor", "-", "cache.nodes does not resolve")
-		return
-	}
-	found := 0
-	withClosures(nodes, func(f *ssa.Function) {
-		allInstrs(f, func(in ssa.Instruction) {
-			c, ok := in.(*ssa.Call)
-			if !ok || c.Call.IsInvoke() || c.Call.StaticCallee() != nil {
-				return
-			}
-			// dynamic call of the captured yield with the range parameter
-			if len(c.Call.Args) != 1 || len(f.Params) != 1 || c.Call.Args[0] != ssa.Value(f.Params[0]) {
-				return
-			}
-			found++
-			alive, unexpired := false, false
-			for _, g := range guardsAt(c.Block()) {
-				if gc, ok := g.Cond.(*ssa.Call); ok && gc.Call.Value == ssa.Value(f.Params[0]) {
-					if invokeName(gc) == "IsAlive" && g.Truth {
-						alive = true
-					}
-					if invokeName(gc) == "HasExpired" && !g.Truth {
-						unexpired = true
-					}
-				}
-			}
-			cx.R.Check(alive && unexpired, rule, funcName(f), "yield filter", cx.P.where(c), "iteration yields a node only if it is alive and not expired")
-		})
-	})
-	if found == 0 {
-		cx.R.Violate(rule, funcName(nodes), "yield", cx.P.Pos(nodes.Pos()), "cache.nodes no longer yields range nodes")
-	}
+	// the cache's node iterator over Range yields only alive, unexpired nodes: C03.filter (listed under C15)
 }
 
 // ruleC15CopyAll: a resize copies every bucket of the old table.
